@@ -33,6 +33,11 @@ func genPlainC(r *sim.Rand, tier, prop string) *sim.Case {
 	nkeys := r.Pick(1, 2, 3)
 	c.Cfg["keys"] = int64(nkeys)
 	c.Cfg["memtable_size"] = r.Pick64(1<<20, 1<<20, 2048)
+	if prop == "C37" {
+		// small memtables and finely varied entry sizes: every way an entry can meet
+		// the end of a memtable (fits with room, fits exactly, does not fit)
+		c.Cfg["memtable_size"] = r.Pick64(1<<20, 2048, 1024, 512, 512)
+	}
 	c.Cfg["memtable_art"] = 0
 	c.Cfg["value_threshold"] = r.Pick64(32, 1<<20)
 	c.Cfg["vlog_buckets"] = 1
@@ -46,13 +51,37 @@ func genPlainC(r *sim.Rand, tier, prop string) *sim.Case {
 	c.Cfg["pause_budget"] = r.Pick64(0, 1, 1, 2, 3)
 	ntasks := r.Pick(2, 3, 4)
 	c.Cfg["tasks"] = int64(ntasks)
+	// Background variant (1 in 2): the keys are laid out over the levels first (an
+	// older value in the main tables of the last level, a newer one in its ingest
+	// buffer or in L0), then flushes and compactions run as scheduler tasks that
+	// park at the yield sites around their install steps while the clients read and
+	// write: every foreground call sees every intermediate state of the table lists.
+	bg := r.Intn(2) == 0
+	if bg {
+		c.Cfg["bg"] = 1
+		c.Cfg["memtable_size"] = 1 << 20
+		c.Cfg["layers"] = int64(r.Pick(2, 2, 3))
+		c.Cfg["l0_tables"] = 16
+		nb := 1 + r.Intn(3)
+		for i := 0; i < nb; i++ {
+			c.Ops = append(c.Ops, sim.Op{K: "bg", A: int64(r.Intn(60)), S: r.PickS("drain", "drain", "l0move", "rotate", "compactonce", "lmax")})
+		}
+	}
 	for t := 0; t < ntasks; t++ {
 		n := 2 + r.Intn(5)
 		for i := 0; i < n; i++ {
 			k := int64(r.Intn(nkeys))
-			switch x := r.Intn(10); {
+			x := r.Intn(10)
+			if bg && x < 5 && r.Intn(3) != 0 {
+				x = 6 // read-mostly: a fresh write in the memtable would hide the levels below
+			}
+			switch {
 			case x < 4:
-				c.Ops = append(c.Ops, sim.Op{K: "pset", A: int64(t), B: k, C: int64(r.Pick(1, 1, 20, 60, 300))})
+				vlen := int64(r.Pick(1, 1, 20, 60, 300))
+				if prop == "C37" && r.Intn(2) == 0 {
+					vlen = int64(r.Intn(400))
+				}
+				c.Ops = append(c.Ops, sim.Op{K: "pset", A: int64(t), B: k, C: vlen})
 			case x < 5:
 				c.Ops = append(c.Ops, sim.Op{K: "pdel", A: int64(t), B: k})
 			case x < 9 || prop == "C34":
@@ -83,7 +112,11 @@ func execPlainC(t *testing.T, c *sim.Case, prop string) (res *sim.Result) {
 		w := NewWorld(t, c, res)
 		defer w.Cleanup()
 		m := newModeC(w, res, nkeys)
-		if err := m.open("skiplist.", "art.", "lsm.flush"); err != nil {
+		ignore := []string{"skiplist.", "art.", "lsm.flush"}
+		if c.CfgInt("bg", 0) == 1 {
+			ignore = []string{"skiplist.", "art."} // the flush worker is a scheduled task too
+		}
+		if err := m.open(ignore...); err != nil {
 			res.Violate(0, "open_failed", nil, "%v", err)
 			return
 		}
@@ -91,11 +124,19 @@ func execPlainC(t *testing.T, c *sim.Case, prop string) (res *sim.Result) {
 		scripts := make([][]sim.Op, ntasks)
 		actions := map[int][]string{}
 		closeTask, closeAt := -1, 0
+		if c.CfgInt("bg", 0) == 1 {
+			m.layout(int(c.CfgInt("layers", 2)))
+			if w.DB == nil {
+				return
+			}
+		}
 		for _, op := range c.Ops {
 			switch op.K {
 			case "pset", "pdel", "pget", "txn":
 				ti := int(op.A) % ntasks
 				scripts[ti] = append(scripts[ti], op)
+			case "bg":
+				actions[int(op.A)] = append(actions[int(op.A)], "bg:"+op.S)
 			case "at":
 				actions[int(op.A)] = append(actions[int(op.A)], op.S)
 			case "close":
@@ -170,6 +211,10 @@ func (m *modeC) runWithActions(maxSteps int, actions map[int][]string) bool {
 				m.res.Faults["l0_throttle_on"]++
 			case "throttle_off":
 				m.w.DB.VerifLSM().VerifThrottle(false)
+			default:
+				if strings.HasPrefix(a, "bg:") {
+					m.spawnBackground(strings.TrimPrefix(a, "bg:"))
+				}
 			}
 			m.res.Trace.Add("action %s at step %d", a, steps)
 		}
@@ -195,11 +240,111 @@ func (m *modeC) runWithActions(maxSteps int, actions map[int][]string) bool {
 	return m.w.Sched.AllDone(m.tasks)
 }
 
+// layout writes `layers` generations of every key from the root goroutine with
+// every engine worker running freely (no site parks), and pushes each generation
+// down: generation 1 into the main tables of the last level, generation 2 into
+// its ingest buffer, generation 3 into L0. The writes are part of the history.
+func (m *modeC) layout(layers int) {
+	w := m.w
+	saved := w.Sched.Ignore
+	w.Sched.Ignore = func(string) bool { return true }
+	defer func() { w.Sched.Ignore = saved }()
+	lsm := w.DB.VerifLSM()
+	for g := 1; g <= layers; g++ {
+		for ki := 0; ki < m.nkeys; ki++ {
+			c := &call{task: -1, txn: -1, key: ki, kind: "pset", invoke: m.next()}
+			c.val = fmt.Sprintf("g%d.%d:%s", g, ki, strings.Repeat("y", 40))
+			c.err = errStr(w.DB.Set([]byte(keyNames[ki]), []byte(c.val)))
+			synctest.Wait()
+			c.ret = m.next()
+			m.calls = append(m.calls, c)
+			m.res.Trace.Add("layout set k%d -> %q err=%s", ki, trunc([]byte(c.val)), c.err)
+		}
+		w.DB.VerifRotate()
+		synctest.Wait()
+		m.res.Faults["rotate"]++
+		if g <= 2 {
+			if err := lsm.VerifCompact(0, 0, 0, 1.5); err == nil { // L0 -> ingest buffer of the base level
+				m.res.Faults["compact_L0_m0"]++
+			}
+			synctest.Wait()
+		}
+		if g == 1 {
+			for _, tb := range lsm.VerifTables() {
+				if tb.Ingest {
+					if err := lsm.VerifCompact(0, tb.Level, 1, 1.5); err == nil { // drain into the main tables
+						m.res.Faults["compact_L2_m1"]++
+					}
+					synctest.Wait()
+					break
+				}
+			}
+		}
+	}
+	m.res.Trace.Add("layout done: %s", DescribeTables(w))
+}
+
+// spawnBackground starts one maintenance step as a scheduler task: it parks at
+// the yield sites of flush / compaction like any other task.
+func (m *modeC) spawnBackground(kind string) {
+	w := m.w
+	db := w.DB
+	m.bgSeq++
+	name := fmt.Sprintf("bg%d:%s", m.bgSeq, kind)
+	m.bgTasks = append(m.bgTasks, w.Sched.Go(name, func() {
+		defer func() {
+			if r := recover(); r != nil {
+				m.res.Violate(w.Sched.Steps, "maintenance_panicked", map[string]string{"op": kind, "panic": "mode_c"}, "%s panicked: %v", name, r)
+			}
+		}()
+		if m.closed || w.DB == nil {
+			return
+		}
+		lsm := db.VerifLSM()
+		var err error
+		switch kind {
+		case "rotate":
+			db.VerifRotate()
+			m.res.Faults["rotate"]++
+		case "l0move":
+			err = lsm.VerifCompact(0, 0, 0, 1.5)
+		case "compactonce":
+			lsm.VerifCompactOnce(0)
+		case "drain", "lmax":
+			level, mode := -1, uint8(0)
+			for _, tb := range lsm.VerifTables() {
+				if kind == "drain" && tb.Ingest {
+					level, mode = tb.Level, 1
+					break
+				}
+				if kind == "lmax" && tb.Level > level {
+					level = tb.Level
+				}
+			}
+			if level < 0 {
+				return
+			}
+			err = lsm.VerifCompact(1, level, mode, 1.5)
+		}
+		if err == nil {
+			m.res.Faults["bg_"+kind]++
+		}
+		m.res.Trace.Add("%s -> %v", name, err)
+	}))
+	synctest.Wait() // the new task registers itself as parked
+}
+
 func (m *modeC) doClose(task int) {
 	c := &call{task: task, txn: -1, kind: "close", invoke: m.next()}
 	m.calls = append(m.calls, c)
-	m.res.Trace.Add("t%d close invoked", task)
+	// The engine's own compactors are stopped and awaited by Close; the steps
+	// started through the accessor are not known to it, so the closing task
+	// waits for them itself (no new ones start once closing is set).
 	m.closed = true
+	for !m.w.Sched.AllDone(m.bgTasks) {
+		m.yield("lockwait") // waits like a lock-waiter: yields to every other enabled task
+	}
+	m.res.Trace.Add("t%d close invoked", task)
 	m.res.Faults["close_racing"]++
 	err := m.w.DB.Close()
 	c.err = errStr(err)
